@@ -228,12 +228,13 @@ type simConnMgr struct {
 	seq      map[topoapi.ID]int
 	grpc     map[sb.ConnID]*grpc.ClientConn
 	watchers map[*simConnWatcher]struct{}
+	fuse     *fuse
 }
 
 type simConnWatcher struct{ ch chan sb.Conn }
 
-func newSimConnMgr(devs map[string]*simDevice) *simConnMgr {
-	return &simConnMgr{devices: devs, managed: map[topoapi.ID]bool{}, reach: map[topoapi.ID]bool{}, conns: map[sb.ConnID]sb.Conn{},
+func newSimConnMgr(devs map[string]*simDevice, f *fuse) *simConnMgr {
+	return &simConnMgr{fuse: f, devices: devs, managed: map[topoapi.ID]bool{}, reach: map[topoapi.ID]bool{}, conns: map[sb.ConnID]sb.Conn{},
 		byTarget: map[topoapi.ID]sb.Conn{}, clients: map[topoapi.ID]sb.Client{}, seq: map[topoapi.ID]int{}, grpc: map[sb.ConnID]*grpc.ClientConn{},
 		watchers: map[*simConnWatcher]struct{}{}}
 }
@@ -327,6 +328,9 @@ func (m *simConnMgr) Connect(ctx context.Context, target *topoapi.Object) error 
 	if _, ok := m.devices[string(target.ID)]; !ok {
 		return errors.NewInvalid("no such device %s", target.ID)
 	}
+	if !m.fuse.Effect("conn connect " + string(target.ID)) {
+		return errors.NewInternal("crashed")
+	}
 	m.managed[target.ID] = true
 	if m.reach[target.ID] {
 		m.up(target.ID)
@@ -339,6 +343,9 @@ func (m *simConnMgr) Disconnect(ctx context.Context, targetID topoapi.ID) error 
 	defer m.mu.Unlock()
 	if !m.managed[targetID] {
 		return errors.NewNotFound("target '%s' not found", targetID)
+	}
+	if !m.fuse.Effect("conn disconnect " + string(targetID)) {
+		return errors.NewInternal("crashed")
 	}
 	delete(m.managed, targetID)
 	m.down(targetID)
